@@ -1,17 +1,496 @@
-"""C05 -- untrusted bytes never crash, hang or exhaust memory in the readers (DESIGN.md §3 C05)."""
+"""C05 -- untrusted bytes never crash, hang or exhaust memory in the readers (DESIGN.md §3 C05).
+
+Decides (necessary conditions, from the MIR of /repo's current tree):
+  C05-PANIC       no undischarged panic-capable site reachable from the reader entry set
+  C05-METHOD      the fall-through panic of the decoder constructor is unreachable: the open path rejects exactly the
+                  methods it cannot decode, and every decoder construction uses the method the open path validated
+  C05-TS-ZIPFILE  ZipFile's lazy-reader typestate (reader == NoReader <=> crypto_reader.is_some()) is established at
+                  every construction and preserved by every function that touches the two fields
+  C05-NOPW        the password-less open can only yield a plain reader or an error (discharges the stream reader's unwrap)
+  C05-LOOP        every loop reachable from the entry set makes progress by a recognised pattern
+  C05-ALLOC       every allocation whose size comes from the input is bounded by type or by a guard against the stream
+"""
+import re
+
+from engine.expr import Ex, norm, show, walk, alts
+from engine.intervals import Intervals, dominating_facts, ty_range
+from engine.mir import AnchorLost, callee_matches
+from engine.panics import const_return_summaries, leaf_sig
+from engine.query import aggregates, field_assignments, mut_borrows_of_field, variant_index, calls_matching, where
 from rules.shared_panic import panic_rule, is_read_root
 
+CM = "compression::CompressionMethod"
 
+
+# --------------------------------------------------------------------------------------------- C05-METHOD
+def rule_method(facts, rep):
+    rule = "C05-METHOD"
+    okall = True
+    make_reader = facts.one(r"^read::make_reader$")
+    mcr = facts.one(r"^read::make_crypto_reader$")
+    adt = facts.adts.get(CM)
+    if not adt:
+        raise AnchorLost("CompressionMethod ADT")
+    names = {}
+    for i, v in enumerate(adt["variants"]):
+        names[int(v["discr"]) if v["discr"] not in (None, "null") else i] = v["name"]
+    # (a) which variants reach a panic in make_reader?
+    ex = Ex(make_reader)
+    panic_blocks = [bi for bi, t in make_reader.calls() if callee_matches(t, r"^core::panicking::")]
+    unhandled = set()
+    for pb in panic_blocks:
+        # variants v such that the panic block is reachable when discr == v: take the dominating switch on the method
+        for d in sorted(make_reader.dominators().get(pb, ())):
+            t = make_reader.term(d)
+            if not t or t["k"] != "switch":
+                continue
+            de = norm(ex.operand(t["discr"], (d, None)))
+            if de[0] == "discr" and de[1][0] == "arg" and de[1][1] == 1:
+                handled_here = set()
+                for v, tgt in t["targets"]:
+                    if pb == tgt or pb in make_reader.reach_from_inclusive(tgt, avoid={d}):
+                        unhandled.add(names.get(v, str(v)))
+                    else:
+                        handled_here.add(v)
+                o = t["otherwise"]
+                if pb == o or pb in make_reader.reach_from_inclusive(o, avoid={d}):
+                    for v in names:
+                        if v not in [x for x, _ in t["targets"]]:
+                            unhandled.add(names[v])
+    rep.count("functions_analysed", 2)
+    if not panic_blocks:
+        rep.ok(rule, "make_reader:no-fallthrough-panic", where(make_reader, make_reader.span),
+               "decoder constructor has no panicking arm")
+        return True
+    # (b) make_crypto_reader: every Ok(Ok(_)) construction is dominated by edges excluding each unhandled variant
+    ex2 = Ex(mcr)
+    okok = []
+    for bi, si, s in mcr.stmts():
+        if s["k"] == "assign" and s["place"]["l"] == 0 and not s["place"]["p"]:
+            e = norm(ex2.rvalue(s["rv"], (bi, si)))
+            for a in alts(e):
+                if a[0] == "agg" and a[1] == "adt:Ok" and a[3] and a[3][0][1][0] in ("agg", "phi"):
+                    inner = a[3][0][1]
+                    if any(x[0] == "agg" and x[1] == "adt:Ok" for x in alts(inner)):
+                        okok.append((bi, s))
+    if not okok:
+        raise AnchorLost("no Ok(Ok(..)) return in make_crypto_reader")
+    for bi, s in okok:
+        fs = dominating_facts(mcr, ex2, bi)
+        excluded = set()
+        for f in fs:
+            if f[0] == "Ne" and f[1][0] == "discr" and f[1][1][0] == "arg" and f[1][1][1] == 1 and f[2][0] == "const":
+                excluded.add(names.get(f[2][2], str(f[2][2])))
+        missing = sorted(unhandled - excluded)
+        good = not missing
+        okall &= good
+        rep.check(good, rule, "make_crypto_reader:rejects:%s" % ",".join(sorted(unhandled)), where(mcr, s["span"]),
+                  "success return of the open path is dominated by the rejection of every method the decoder constructor "
+                  "cannot handle (%s)" % ", ".join(sorted(unhandled)),
+                  "open path can succeed with method variant(s) %s for which make_reader panics" % missing)
+    # (c) every call of make_reader passes the method that the crypto reader was validated with
+    n_sites = 0
+    for f in facts.fns:
+        for bi, t in calls_matching(f, r"^read::make_reader$"):
+            n_sites += 1
+            exf = Ex(f)
+            m = norm(exf.operand(t["args"][0], (bi, None)))
+            cr = norm(exf.operand(t["args"][2], (bi, None)))
+            key = "make_reader-call:%s" % f.path.split("::")[-1]
+            inner = [x for x in walk(cr) if x[0] == "call" and x[1] == "read::make_crypto_reader"]
+            if inner:
+                good = all(x[2][0] == m for x in inner)
+                okall &= good
+                rep.check(good, rule, key, where(f, t["span"]),
+                          "method argument equals the method the crypto reader was validated with: %s" % show(m),
+                          "make_reader is given method %s but the crypto reader was validated with %s" % (show(m), show(inner[0][2][0])))
+            else:
+                # lazily built reader: method comes from self.data, crypto reader from self.crypto_reader -> invariant M
+                fields_m = [x[2] for x in walk(m) if x[0] == "field"]
+                fields_c = [x[2] for x in walk(cr) if x[0] == "field"]
+                good = "compression_method" in fields_m and "data" in fields_m and "crypto_reader" in fields_c
+                okall &= good
+                rep.check(good, rule, key, where(f, t["span"]),
+                          "lazy construction from self.data.compression_method and self.crypto_reader (tied together by invariant M)",
+                          "make_reader call whose method (%s) / crypto reader (%s) provenance is not the entry's own data" % (show(m), show(cr)))
+    rep.floor(rule, 4, "2 make_reader call sites + open-path rejection + invariant M sites")
+    # invariant M: every ZipFile{crypto_reader: Some(x), data: d} has x = make_crypto_reader(d.compression_method, ..)
+    for f in facts.fns:
+        exf = Ex(f)
+        for bi, si, s, flds in aggregates(f, r"^read::ZipFile$"):
+            cr = norm(exf.operand(flds["crypto_reader"], (bi, si)))
+            data = norm(exf.operand(flds["data"], (bi, si)))
+            key = "invariant-M:%s" % f.path.split("::")[-1]
+            calls = [x for x in walk(cr) if x[0] == "call" and x[1] == "read::make_crypto_reader"]
+            somes = [a for a in alts(cr) if not (a[0] == "agg" and a[1] == "adt:None")]
+            if not somes:
+                rep.ok(rule, key, where(f, s["span"]), "crypto_reader is None here", trivial=True)
+                continue
+            if not calls:
+                okall = False
+                rep.violation(rule, key, where(f, s["span"]),
+                              "ZipFile built with a crypto reader that does not come from make_crypto_reader: %s" % show(cr))
+                continue
+            marg = calls[0][2][0]
+            # data is Cow::Borrowed(d): method argument must be d.compression_method
+            droot = [a for a in walk(data) if a[0] in ("arg", "ok", "call", "field")]
+            good = marg[0] == "field" and marg[2] == "compression_method" and any(marg[1] == x for x in walk(data))
+            okall &= good
+            rep.check(good, rule, key, where(f, s["span"]),
+                      "crypto reader validated with the compression method of the very entry stored in `data`",
+                      "crypto reader validated with %s, which is not the method of the entry stored in the ZipFile (%s)" % (show(marg), show(data)))
+    # nobody else rewrites the method of an entry after parsing
+    writers = {f.path for (f, bi, si, s) in field_assignments(facts, "compression_method", r"ZipFileData$")}
+    allowed = {p for p in writers if re.search(r"parse_extra_field$|FileOptions|add_directory|add_symlink", p)}
+    extra = sorted(writers - allowed)
+    good = not extra
+    okall &= good
+    rep.check(good, rule, "method-writers", "", "ZipFileData.compression_method is assigned only by the extra-field parser: %s" % sorted(writers),
+              "ZipFileData.compression_method assigned outside the parsers: %s" % extra)
+    return okall
+
+
+# --------------------------------------------------------------------------------------------- C05-TS-ZIPFILE
+def rule_ts_zipfile(facts, rep):
+    rule = "C05-TS-ZIPFILE"
+    okall = True
+    # (1) every construction establishes K
+    n = 0
+    for f in facts.fns:
+        exf = Ex(f)
+        for bi, si, s, flds in aggregates(f, r"^read::ZipFile$"):
+            n += 1
+            cr = norm(exf.operand(flds["crypto_reader"], (bi, si)))
+            rd = norm(exf.operand(flds["reader"], (bi, si)))
+            cr_none = all(a[0] == "agg" and a[1] == "adt:None" for a in alts(cr))
+            cr_some = all(a[0] == "agg" and a[1] == "adt:Some" for a in alts(cr))
+            rd_no = all(a[0] == "agg" and a[1] == "adt:NoReader" for a in alts(rd))
+            rd_yes = all(not (a[0] == "agg" and a[1] == "adt:NoReader") for a in alts(rd)) and \
+                all(a[0] in ("agg", "call", "ok") for a in alts(rd))
+            good = (cr_none and rd_yes) or (cr_some and rd_no)
+            okall &= good
+            rep.check(good, rule, "K-establish:%s" % f.path.split("::")[-1], where(f, s["span"]),
+                      "constructed with crypto_reader=%s, reader=%s" % ("Some" if cr_some else "None", "NoReader" if rd_no else "built"),
+                      "ZipFile constructed in a state violating K: crypto_reader=%s reader=%s" % (show(cr), show(rd)))
+    # make_reader never returns NoReader
+    mr = facts.one(r"^read::make_reader$")
+    from engine.query import ret_alts
+    ras = ret_alts(mr)
+    good = all(a[0] == "agg" and a[1].startswith("adt:") and a[1] != "adt:NoReader" for a in ras) and ras
+    okall &= bool(good)
+    rep.check(bool(good), rule, "make_reader-never-NoReader", where(mr, mr.span),
+              "every return of make_reader constructs a decoding variant (%d alternatives)" % len(ras),
+              "make_reader can return %s" % [show(a)[:60] for a in ras])
+    # (2) who touches the two fields
+    touchers = set()
+    for fld in ("reader", "crypto_reader"):
+        for (f, bi, si, s) in field_assignments(facts, fld, r"^read::ZipFile$"):
+            touchers.add(f.path)
+        for (f, bi, si, s) in mut_borrows_of_field(facts, fld, r"^read::ZipFile$"):
+            touchers.add(f.path)
+    expected = {"get_reader", "get_raw_reader", "drop"}
+    names = {p.split("::")[-1] for p in touchers}
+    extra = sorted(names - expected)
+    good = not extra
+    okall &= good
+    rep.check(good, rule, "K-writers", "", "fields reader/crypto_reader are written or mutably borrowed only in %s" % sorted(names),
+              "unexpected function(s) mutate ZipFile.reader / ZipFile.crypto_reader: %s" % extra)
+    # (3) preservation in the two lazy builders: take() only under reader == NoReader, and every path from the take to a
+    #     return assigns self.reader
+    for nm in ("get_reader", "get_raw_reader"):
+        f = facts.one(r"^read::ZipFile::<'a>::%s$" % nm)
+        exf = Ex(f)
+        takes = [(bi, t) for bi, t in f.calls() if callee_matches(t, r"Option::<T>::take$", r"mem::(replace|take)$")]
+        if not takes:
+            raise AnchorLost("no take() in %s" % nm)
+        for bi, t in takes:
+            fs = dominating_facts(f, exf, bi)
+            guarded = any(x[0] == "Eq" and x[1][0] == "discr" and x[1][1][0] == "field" and x[1][1][2] == "reader" and x[2][2] == 0
+                          for x in fs)
+            assign_blocks = {b for b, si, s in f.stmts() if s["k"] == "assign" and s["place"]["p"] and
+                             [p for p in s["place"]["p"] if p["k"] == "field"][-1:] and
+                             [p for p in s["place"]["p"] if p["k"] == "field"][-1]["n"] == "reader"}
+            escapes = [e for e in f.exits() if e in f.reach_from_inclusive(bi, avoid=assign_blocks)]
+            good = guarded and not escapes and assign_blocks
+            okall &= bool(good)
+            rep.check(bool(good), rule, "K-preserve:%s" % nm, where(f, t["span"]),
+                      "crypto reader taken only when reader == NoReader; every path to the return re-assigns self.reader",
+                      "in %s the crypto reader is taken %s and %s" % (
+                          nm, "under the NoReader guard" if guarded else "WITHOUT the reader == NoReader guard",
+                          "a return is reachable without assigning self.reader" if escapes else "reader is re-assigned"))
+    rep.floor(rule, 6)
+    return okall
+
+
+# --------------------------------------------------------------------------------------------- C05-NOPW
+def rule_nopw(facts, rep):
+    rule = "C05-NOPW"
+    okall = True
+    mcr = facts.one(r"^read::make_crypto_reader$")
+    ex = Ex(mcr)
+    sig = facts.sigs.get(mcr.path)
+    # parameter positions by name
+    pw = [i for i in range(1, mcr.arg_count + 1) if mcr.local_name(i) == "password"]
+    ai = [i for i in range(1, mcr.arg_count + 1) if mcr.local_name(i) == "aes_info"]
+    if not pw or not ai:
+        raise AnchorLost("make_crypto_reader parameters password / aes_info")
+    pw, ai = pw[0], ai[0]
+    n = 0
+    for bi, si, s in mcr.stmts():
+        if s["k"] != "assign" or s["rv"]["k"] != "agg" or s["rv"].get("adt") != "result::InvalidPassword":
+            continue
+        n += 1
+        fs = dominating_facts(mcr, ex, bi)
+        some = False
+        for x in fs:
+            if x[0] == "Eq" and x[1][0] == "discr" and x[1][1][0] == "arg" and x[1][1][1] in (pw, ai) and x[2][2] == 1:
+                some = True
+        okall &= some
+        rep.check(some, rule, "InvalidPassword-needs-Some#%d" % n, where(mcr, s["span"]),
+                  "InvalidPassword is produced only on a path where password or aes_info is Some",
+                  "make_crypto_reader can answer InvalidPassword with password = None and aes_info = None")
+    if n == 0:
+        rep.ok(rule, "InvalidPassword-needs-Some#0", where(mcr, mcr.span), "make_crypto_reader never constructs InvalidPassword")
+    # call sites that unwrap the inner Result must pass (None, None)
+    for f in facts.fns:
+        exf = Ex(f)
+        for bi, t in f.calls():
+            if not callee_matches(t, r"Result::<T, E>::(unwrap|expect)$"):
+                continue
+            recv = norm(exf.operand(t["args"][0], (bi, None)))
+            calls = [x for x in walk(recv) if x[0] == "call" and x[1] == "read::make_crypto_reader"]
+            if not calls or recv[0] != "ok":
+                continue
+            c = calls[0]
+            a_pw, a_ai = c[2][pw - 1], c[2][ai - 1]
+            good = all(a[0] == "agg" and a[1] == "adt:None" for a in alts(a_pw)) and \
+                all(a[0] == "agg" and a[1] == "adt:None" for a in alts(a_ai))
+            okall &= good
+            rep.check(good, rule, "unwrap-of-open:%s" % f.path.split("::")[-1], where(f, t["span"]),
+                      "inner Result of make_crypto_reader(.., None, None) unwrapped: InvalidPassword impossible",
+                      "inner Result of make_crypto_reader unwrapped although password=%s aes_info=%s" % (show(a_pw), show(a_ai)))
+    return okall
+
+
+# --------------------------------------------------------------------------------------------- C05-LOOP
+IN_MEMORY_ITER = re.compile(
+    r"std::slice::Iter|std::slice::IterMut|std::vec::IntoIter|std::str::Chars|std::path::Components|std::iter::(Map|Filter|Rev|Enumerate|Take|Skip|Copied|Cloned)<|"
+    r"std::collections::hash_map|std::str::(Split|Bytes|CharIndices)")
+CONSUMERS = re.compile(
+    r"byteorder::ReadBytesExt::read_|std::io::Read::(read|read_exact)$|std::io::Seek::seek$|"
+    r"^read::(central_header_to_zip_file|read_zipfile_from_stream|parse_extra_field)|parse_central_directory$|"
+    r"^spec::\w+::parse$")
+
+REVIEWED_LOOPS = {
+    # key -> reason
+    "spec::CentralDirectoryEnd::find_and_parse|loop1|parse,read_u32,seek":
+        "backward search: pos strictly decreases (checked_sub(1), None => break) and is bounded below by search_upper_bound",
+    "spec::Zip64CentralDirectoryEnd::find_and_parse|loop1|read_u16,read_u32,read_u64,seek":
+        "forward search: pos += 1 per iteration, bounded by search_upper_bound <= cde_pos - 60",
+    "<aes_ctr::AesCtrZipKeyStream<C> as aes_ctr::AesCipher>::crypt_in_place|loop1|xor":
+        "target shrinks by target_len = min(len, 16 - pos) >= 1 per iteration (pos < 16 after the refill)",
+}
+
+
+def _is_len(e):
+    while e[0] == "cast":
+        e = e[1]
+    return (e[0] == "call" and re.search(r"::len$", e[1]) is not None) or e[0] == "len" or (e[0] == "const" and isinstance(e[2], int))
+
+
+def rule_loop(facts, rep, reach):
+    rule = "C05-LOOP"
+    okall = True
+    nloops = 0
+    nth = {}
+    for f in facts.fns:
+        if f.path not in reach:
+            continue
+        loops = f.loops()
+        if not loops:
+            continue
+        ex = Ex(f)
+        for header, body in loops:
+            nloops += 1
+            callees = set()
+            for b in sorted(body):
+                t = f.term(b)
+                if t and t["k"] == "call" and t.get("callee"):
+                    nm = re.sub(r"<[^<>]*>", "", re.sub(r"<[^<>]*>", "", t["callee"])).split("::")[-1]
+                    if callee_matches(t, CONSUMERS.pattern) or t.get("resolved_local"):
+                        callees.add(nm)
+            nth[f.path] = nth.get(f.path, 0) + 1
+            key = "%s|loop%d|%s" % (f.path, nth[f.path], ",".join(sorted(callees)))
+            hterm = f.term(header)
+            w = where(f, hterm["span"] if hterm else f.span)
+            backs = [t for (t, h) in f.back_edges() if h == header]
+            dom = f.dominators()
+            # blocks of the loop executed on every iteration
+            must = [b for b in body if all(b in dom[t] for t in backs)]
+            verdict = None
+            # P1 iterator over in-memory data
+            for b in must:
+                t = f.term(b)
+                if t and t["k"] == "call" and callee_matches(t, r"iter::Iterator::next$"):
+                    recv_l = t["args"][0]["place"]["l"] if t["args"][0]["k"] != "const" else None
+                    ity = t.get("self_ty") or ""
+                    ga = " ".join(t.get("gargs") or [])
+                    if IN_MEMORY_ITER.search(ga) or IN_MEMORY_ITER.search(ity):
+                        verdict = ("iterator", "for-loop over in-memory data (%s)" % (ga[:60]))
+                    elif re.search(r"ops::Range<", ga):
+                        recv = norm(ex.operand(t["args"][0], (b, None)))
+                        ends = [dict(x[3]).get("end") for x in walk(recv) if x[0] == "agg" and x[1] == "adt:Range"]
+                        if ends and all(e_ is not None and _is_len(e_) for e_ in ends):
+                            verdict = ("iterator", "range bounded by the length of an in-memory collection (%s)" % show(ends[0]))
+                        else:
+                            verdict = ("range", ga)
+            # P2 consumes-or-exits
+            consume = None
+            for b in must:
+                t = f.term(b)
+                if t and t["k"] == "call" and callee_matches(t, CONSUMERS.pattern):
+                    # the call's result must be able to leave the loop: some switch in the loop depending on it has a
+                    # successor outside the loop
+                    res_local = t["dest"]["l"]
+                    for sb in body:
+                        st = f.term(sb)
+                        if st and st["k"] == "switch":
+                            d = norm(ex.operand(st["discr"], (sb, None)))
+                            dep = any(x[0] == "call" and len(x) > 4 and x[4] == b for x in walk(d))
+                            if dep and any(s_ not in body for s_ in f.succ(sb)):
+                                consume = (b, t)
+                    if consume:
+                        break
+            if verdict and verdict[0] == "iterator":
+                rep.ok(rule, key, w, verdict[1])
+            elif consume:
+                nm = consume[1]["callee"].split("::")[-1]
+                rep.ok(rule, key, w, "every iteration consumes from the stream through %s, whose failure/end leaves the loop%s"
+                       % (nm, " (range bound from input is therefore harmless)" if verdict else ""))
+            elif key in REVIEWED_LOOPS:
+                rep.reviewed(rule, key, w, "reviewed: " + REVIEWED_LOOPS[key])
+            elif verdict and verdict[0] == "range":
+                okall = False
+                rep.violation(rule, key, w, "loop over an integer range whose body does not consume input on every iteration: "
+                              "a lying count makes it (practically) unbounded")
+            else:
+                okall = False
+                rep.violation(rule, key, w, "loop with no recognised progress pattern (iterator over in-memory data, "
+                              "consume-or-exit on the stream, or reviewed counter)")
+    rep.count("loops", nloops)
+    rep.floor(rule, 9, "hand count of loops reachable from the reader entry set")
+    return okall
+
+
+# --------------------------------------------------------------------------------------------- C05-ALLOC
+ALLOC = re.compile(r"::with_capacity$|^std::vec::from_elem$|::reserve(_exact)?$|Vec::<T, A>::resize$|::with_capacity_and_hasher$")
+STREAM_BOUND = re.compile(r"find_and_parse|stream_position|Seek::seek|::len$|metadata")
+SMALL = 1 << 20
+
+
+def rule_alloc(facts, rep, reach, summaries):
+    rule = "C05-ALLOC"
+    okall = True
+    n = 0
+    for f in facts.fns:
+        if f.path not in reach:
+            continue
+        ex = Ex(f)
+        for bi, t in f.calls():
+            if not callee_matches(t, ALLOC.pattern):
+                continue
+            # size argument: with_capacity(n) -> arg0 ; from_elem(x, n) -> arg1 ; reserve(self, n)/resize(self, n, x) -> arg1
+            idx = 0 if re.search(r"with_capacity", t["callee"]) else 1
+            if idx >= len(t["args"]):
+                continue
+            n += 1
+            op = t["args"][idx]
+            e = norm(ex.operand(op, (bi, None)))
+            nm = t["callee"].split("::")[-1]
+            key = "%s|%s|%s" % (f.path, nm, leaf_sig(e))
+            w = where(f, t["span"])
+            fs = [x for x in dominating_facts(f, ex, bi) if x[0] != "truth"]
+            iv = Intervals(summaries, fs)
+            bad = []
+            for a in alts(e):
+                r = iv.range_of(a, "usize")
+                if r[1] <= SMALL:
+                    continue
+                # guarded alternative: find the definition site of this alternative and its dominating facts
+                if _guarded_by_stream(f, ex, op, a, bi, summaries):
+                    continue
+                bad.append(a)
+            if not bad:
+                rep.ok(rule, key, w, "allocation size %s is bounded (<= 2^20 by type/constant, or guarded against a stream-derived bound)" % show(e)[:120])
+            else:
+                okall = False
+                rep.violation(rule, key, w, "allocation of input-controlled size: %s can be as large as the field it was parsed from, "
+                              "with no guard against the stream length" % ", ".join(show(b)[:100] for b in bad))
+    rep.floor(rule, 8, "hand count 11 allocation sites in READ-reachable code")
+    return okall
+
+
+def _guarded_by_stream(f, ex, op, alt_expr, use_bb, summaries):
+    """is the value `alt_expr` flowing into the allocation through a definition that is dominated by a comparison
+    `alt_expr <= X` / not(alt_expr > X) with X derived from the stream length/position?"""
+    if op["k"] == "const":
+        return False
+    l = op["place"]["l"]
+    seen = set()
+    work = [(l, use_bb, None)]
+    while work:
+        loc, bb, idx = work.pop()
+        defs, _ = ex.reaching(loc, bb, idx)
+        for d in defs:
+            kind, dbb, dsi, node = d
+            if (dbb, dsi) in seen:
+                continue
+            seen.add((dbb, dsi))
+            if kind != "s" or node["k"] != "assign":
+                continue
+            val = norm(ex.rvalue(node["rv"], (dbb, dsi)))
+            if val == alt_expr or alt_expr in alts(val):
+                for (opx, x, y) in [z for z in dominating_facts(f, ex, dbb) if z[0] != "truth"]:
+                    if x == alt_expr and opx in ("Le", "Lt") and any(c[0] == "call" and STREAM_BOUND.search(c[1]) for c in walk(y)):
+                        return True
+                    if y == alt_expr and opx in ("Ge", "Gt") and any(c[0] == "call" and STREAM_BOUND.search(c[1]) for c in walk(x)):
+                        return True
+            # follow plain copies
+            rv = node["rv"]
+            if rv["k"] == "use" and rv["op"]["k"] in ("copy", "move") and not rv["op"]["place"]["p"]:
+                work.append((rv["op"]["place"]["l"], dbb, dsi))
+    return False
+
+
+# --------------------------------------------------------------------------------------------- driver
 def run(ctx, rep):
     facts = ctx.facts
     rep.configs.append("default")
     rep.explanation = (
         "Static panic-freedom inventory over the MIR of every function reachable from the reader entry set "
-        "(ZipArchive/ZipFile/stream reader/new_append and the decoders they construct): each Assert terminator "
-        "(overflow, bounds, division) and each call to a panicking API must be discharged by interval analysis, by a "
-        "dominating guard, or by a reviewed table entry keyed to that site; plus loop-progress and allocation-size "
-        "provenance rules. Decides the no-panic / no-unbounded-loop / bounded-allocation clauses, not memory multiples or time.")
-    n = panic_rule(ctx, rep, "C05-PANIC", facts, is_read_root)
+        "(ZipArchive / ZipFile / streaming reader / new_append and the decoders they construct): each Assert terminator "
+        "(overflow, bounds, division) and each call to a panicking API must be discharged by interval analysis, a dominating "
+        "guard, the Read/Write count contract, or a reviewed table entry keyed to that site (entries that rely on another rule "
+        "are void when that rule fails); plus typestate rules for ZipFile's lazy reader, the unreachability of the decoder "
+        "constructor's fall-through panic, loop-progress classification and allocation-size provenance. Decides the no-panic / "
+        "no-unbounded-loop / bounded-allocation clauses of C05 -- not peak memory multiples, wall time or dependency internals.")
+    void = set()
+    if not rule_method(facts, rep):
+        void.add("C05-METHOD")
+    if not rule_ts_zipfile(facts, rep):
+        void.add("C05-TS-ZIPFILE")
+    if not rule_nopw(facts, rep):
+        void.add("C05-NOPW")
+    roots = [f.path for f in facts.fns if is_read_root(f)]
+    reach, _ = facts.reachable_from(roots)
+    summaries = const_return_summaries(facts)
+    rule_loop(facts, rep, reach)
+    rule_alloc(facts, rep, reach, summaries)
+    panic_rule(ctx, rep, "C05-PANIC", facts, is_read_root, void_rules=void)
     rep.floor("C05-PANIC", 60, "hand count of READ-reachable panic-capable sites on the pinned tree is ~70")
     rep.assume("callees outside the curated list of panicking std/dependency APIs do not panic on any input")
     rep.assume("analysis is on the dev-profile MIR (overflow checks on): the stricter reading")
+    rep.assume("std::io::Read/Write contract: a returned count never exceeds the buffer length")
+    if ctx.tier == "thorough":
+        from rules.shared_panic import thorough_configs
+        thorough_configs(ctx, rep, "C05-PANIC", is_read_root, void)
